@@ -240,3 +240,30 @@ package contracts
 //@   trusted
 //@   pure
 //@   ensures result == hexstr(src)
+
+//@ -- encoding/binary, io ----------------------------------------------------------
+//@ pure func be16(b seq[byte]) int = b[0]*256 + b[1]
+//@ pure func be32(b seq[byte]) int = b[0]*16777216 + b[1]*65536 + b[2]*256 + b[3]
+
+//@ func binary.bigEndian.Uint16 :: o, b -> v
+//@   trusted
+//@   pure
+//@   requires [be-uint16-len] len(b) >= 2
+//@   ensures v == be16(b)
+
+//@ func binary.bigEndian.Uint32 :: o, b -> v
+//@   trusted
+//@   pure
+//@   requires [be-uint32-len] len(b) >= 4
+//@   ensures v == be32(b)
+
+//@ axiom [io-eof-sentinel] io.ErrUnexpectedEOF != nil
+
+//@ -- bytes read from an io.Reader so far (ghost history)
+//@ ghostfield iface.consumed seq[byte]
+
+//@ func io.ReadFull :: r, buf -> n, err
+//@   trusted
+//@   assigns post(buf), consumed(r)
+//@   ensures err == nil ==> n == len(buf) && consumed(r) == old(consumed(r)) ++ post(buf)
+//@   ensures err != nil ==> n < len(buf) || len(buf) == 0
